@@ -18,7 +18,7 @@ from .c13 import criteria
 
 PID = 'C15'
 TIMEOUT = 60.0
-RULE = ('BFS from 6 containers (one with zero cycles) over 24 state-changing operations (8 metric computations in cycle / augmented mode, 3 metric '
+RULE = ('BFS from 7 containers (one with zero cycles, one with cycles of thousands of samples - depth 2 only) over 25 state-changing operations (8 metric computations in cycle / augmented mode, 3 metric '
         'additions incl. a wrong-length one, cycle timings, 10 subset selections covering all six comparators and '
         'negative / decimal / exponent literals, chain timings) to the fix-point of canonical states or the depth bound; '
         '14 observations after every transition; non-trivial = the operation changed the canonical state')
@@ -54,6 +54,7 @@ def phases(seed):
     out['wrap-last'] = np.r_[wl, 0.3]
     out['single'] = np.r_[ramp([7], first_partial=3.0), ramp([15])[:9]]
     out['no-wrap'] = np.linspace(0.1, 3.0, 17)
+    out['long-cycles'] = ramp([40, 5000, 60, 4500, 50, 30])     # larger scope: cycles of several thousand samples
     out['mixed11'] = ramp([5, 21, 8, 13, 6, 34, 9, 7, 17, 11, 10][seed % 3:] + [12, 6][:seed % 3])
     return out
 
@@ -72,7 +73,7 @@ def first(v):
 FUNCS = {'max': np.max, 'mean': np.mean, 'len': len, 'first': first}
 COMPUTE = [('m1', 'A', 'max', 'cycle'), ('m1', 'B', 'mean', 'cycle'), ('m1', 'A', 'len', 'cycle'), ('m1', 'A', 'first', 'augmented'),
            ('m2', 'B', 'max', 'cycle'), ('m2', 'A', 'mean', 'augmented'), ('m2', 'B', 'len', 'augmented'), ('m1', 'B', 'first', 'cycle')]
-ADD = [('m1', 'arange'), ('m2', 'alt'), ('m3', 'wrong-length')]
+ADD = [('m1', 'arange'), ('m2', 'alt'), ('m3', 'wrong-length'), ('m1', 'big')]
 CONDS = [
     ['is_good==1'],
     ['is_good!=1'],
@@ -84,6 +85,8 @@ CONDS = [
     ['m1>1e9'],
     ['is_good>=0'],
     ['m2!=-1', 'm1<2.5e1'],
+    ['m1==1600000002'],          # large-magnitude metric (time stamps): equality is exact, not "close"
+    ['m1!=1600000001', 'is_good>=0'],
 ]
 OPS = ([('compute',) + c for c in COMPUTE] + [('add',) + a for a in ADD] + [('timings',)] +
        [('pick', i) for i in range(len(CONDS))] + [('chain_timings',)])
@@ -174,6 +177,8 @@ class Model:
                     self.metrics[name] = [float(i) for i in range(self.K)]
                 elif what == 'alt':
                     self.metrics[name] = [(-1.0, 0.5)[i % 2] for i in range(self.K)]
+                elif what == 'big':
+                    self.metrics[name] = [1.6e9 + i for i in range(self.K)]
                 # wrong length: rejected, nothing stored
             elif kind == 'timings':
                 self.metrics['start_sample'] = [float(a) for a, b in self.segs]
@@ -255,6 +260,8 @@ def real_apply(C, op, model):
                 C.add_cycle_metric(name, np.arange(C.ncycles).astype(float))
             elif what == 'alt':
                 C.add_cycle_metric(name, np.array([(-1.0, 0.5)[i % 2] for i in range(C.ncycles)]))
+            elif what == 'big':
+                C.add_cycle_metric(name, 1.6e9 + np.arange(C.ncycles).astype(float))
             else:
                 try:
                     C.add_cycle_metric(name, np.arange(C.ncycles + 1).astype(float))
@@ -419,20 +426,23 @@ def fmt(op):
     return '%s(%s)' % (op[0], ', '.join(str(x) for x in op[1:]))
 
 
-SMALL_OPS = [OPS[0], OPS[3], OPS[5], ('add', 'm2', 'alt'), ('timings',), ('pick', 0), ('pick', 3), ('pick', 5), ('pick', 7),
+SMALL_OPS = [OPS[0], OPS[3], OPS[5], ('add', 'm2', 'alt'), ('add', 'm1', 'big'), ('timings',), ('pick', 0), ('pick', 3), ('pick', 5), ('pick', 7), ('pick', 10),
              ('chain_timings',)]
 
 
 def bounds(tier):
     if tier == 'quick':
-        return {'depth_full': 3, 'depth_small': 5, 'containers': 5}
+        return {'depth_full': 3, 'depth_small': 4, 'containers': 7}
     return {'depth_full': 5, 'depth_small': 12, 'containers': 5}
 
 
 def run(ctx):
     b = bounds(ctx.tier)
-    roots = [(name, ctx.seed) for name in phases(ctx.seed)]
+    roots = [(name, ctx.seed) for name in phases(ctx.seed) if name != 'long-cycles']
     rep = history.bfs(roots, OPS, transition, b['depth_full'], dedup=True, timeout_s=TIMEOUT, serial=ctx.serial, ops_for=ops_for)
+    rep0 = history.bfs([('long-cycles', ctx.seed)], OPS, transition, 2, dedup=True, timeout_s=TIMEOUT, serial=ctx.serial, ops_for=ops_for)
+    rep.merge(rep0)
+    rep.extra['distinct_states'] = rep.extra.get('distinct_states', 0)
 
     def small_ops_for(root, hist):
         return [op for op in ops_for(root, hist) if op in SMALL_OPS]
